@@ -111,6 +111,7 @@ def build_clause(acc, c):
     from tawazi.errors import TawaziBaseException
 
     acc.cases += 1
+    nested_build_clause(acc, c)
     for n in (1, 2, 3):
         for es in shapes(n):
             for off in (0, 3, 4):
@@ -143,6 +144,78 @@ def build_clause(acc, c):
                                     if refused != bad:
                                         acc.violation(V("setup_dependency_check", f"setup={st} takes_arg={takes} (default={default!r}) edges={es4}: builder {'refused' if refused else 'accepted'}, reference says {'refuse' if bad else 'accept'}",
                                                         refused=refused), dict(c, n=n, es=es4, setup=list(st), takes=list(takes)), (), None, p.source())
+
+
+NESTED_BUILD_SRC = '''
+from tawazi import xn, dag
+
+@xn
+def double(x):
+    return 2 * x
+
+@xn(setup=True)
+def prep():
+    return 5
+
+@xn(setup=True)
+def load(v):
+    return ("loaded", v)
+
+@dag
+def passthrough(a):
+    return a
+
+@dag
+def inner(a):
+    return double(a)
+
+@dag
+def inner_setup():
+    return prep()
+
+@dag
+def inner_mixed(a):
+    p = prep()
+    return p, double(a)
+
+@dag
+def two_levels(a):
+    return passthrough(a)
+'''
+
+# body of the describing function `def main(x):`, must the builder refuse it, value of main(3) when accepted
+NESTED_BUILDS = [
+    ("return load(passthrough(double(x)))", True, None),       # through a DAG that hands its own parameter back
+    ("return load(two_levels(double(x)))", True, None),
+    ("return load(inner(x))", True, None),                       # the inner DAG's node is not a setup node
+    ("return load(inner_mixed(x)[1])", True, None),
+    ("return load(passthrough(x))", True, None),                 # a DAG argument, handed through an inner DAG
+    ("return load(v=passthrough(double(x)))", True, None),
+    ("return load(inner_setup())", False, ("loaded", 5)),        # only setup nodes behind the inner DAG
+    ("return load(inner_mixed(x)[0])", False, ("loaded", 5)),
+]
+
+
+def nested_build_clause(acc, c):
+    """the dependency of a setup node crosses the boundary of a DAG called inside the DAG"""
+    from ..build import exec_source
+    for body, must_refuse, value in NESTED_BUILDS:
+        src = NESTED_BUILD_SRC + "\n@dag\ndef main(x):\n    " + body + "\n"
+        acc.evaluations += 1
+        try:
+            ns = exec_source(src)
+            got = None
+        except BaseException as e:  # noqa: BLE001
+            got = ("refused", type(e).__name__)
+        if got is None:
+            from .. import harness as H
+            res = H.run_controlled(lambda: ns["main"](3))
+            got = ("accepted", res.value if res.outcome == "return" else repr(res.exc))
+        acc.mark_nontrivial(("nested_build", body))
+        ok = got[0] == "refused" if must_refuse else got == ("accepted", value)
+        if not ok:
+            acc.violation(V("setup_dependency_check", f"'{body}': builder gave {got!r}, reference says {'refuse' if must_refuse else ('accept', value)}",
+                            refused=got[0] == "refused", nested=True), dict(c, body=body), (), None, src)
 
 
 def run_shard(tier, k, n, acc):
